@@ -70,14 +70,27 @@ struct C17 : Scenario {
     c = &cases[std::min<size_t>((size_t) hi * 240 + lo, cases.size() - 1)];
     start(w, c->args, c->message);
   }
+  int ctl_faults = 0; int inject_pid = 0;
+  // with a fault budget: one control file of qmail-inject cannot be opened or read; the message must then be refused (temporary error),
+  // never injected with a silently different default host/domain
+  void alternatives(World &w, Proc &p, const Req &r, std::vector<Alt> &a) override {
+    if (w.ex->bound[BK_FAULT] <= 0 || !p.standin.empty() || round != 0) return;
+    if (r.op == VK_OPEN && std::string(r.data.c_str()).compare(0, 8, "control/") == 0) { a.push_back({BK_FAULT, ALT_FAIL, ENFILE}); a.push_back({BK_FAULT, ALT_FAIL, EIO}); }
+    if (r.op == VK_READ) { Ofd *o = w.O(p, r.a[0]); Inode *i = (o && o->kind == K_FILE) ? w.k.I(o->ino) : nullptr; if (i) for (const char *f : {"me", "defaulthost", "defaultdomain", "plusdomain", "idhost"}) if (w.k.file(std::string("/var/qmail/control/") + f) == i) { a.push_back({BK_FAULT, ALT_FAIL, EIO}); break; } }
+  }
+  void on_proc_exit(World &w, Proc &p) override {
+    if (ctl_faults && p.standin.empty() && round == 0) { int code = (p.status >> 8) & 255; w.counters["control_file_errors"]++;
+      if ((p.status & 127) || code != 111 || q_runs != 0) w.soft_violation("C17:control-file-error", c->name + ": a control file of qmail-inject could not be read (injected) but it exited " + std::to_string(code) + (q_runs ? " after injecting the message" : "") + "; documented: 111, nothing injected"); }
+  }
   std::string script(World &, Proc &) override {
     std::string a; int v;
     if (phase == 0) { phase = 1; q_runs++; qmsg.clear(); qenv.clear(); v = VKA_READALL; a.append((char *) &v, 4); v = 0; a.append((char *) &v, 4); v = VKA_READALL; a.append((char *) &v, 4); v = 1; a.append((char *) &v, 4); v = VKA_ASK; a.append((char *) &v, 4); return a; }
     phase = 0; v = VKA_EXIT; a.append((char *) &v, 4); v = 0; a.append((char *) &v, 4); return a;
   }
-  void after_step(World &, Proc &p, const Step &st) override { if (!p.standin.empty() && st.op == VK_READ && st.ret > 0 && st.data) { if (st.a[0] == 0) qmsg += *st.data; else if (st.a[0] == 1) qenv += *st.data; } }
+  void after_step(World &, Proc &p, const Step &st) override { if (st.injected && st.err) ctl_faults++; if (!p.standin.empty() && st.op == VK_READ && st.ret > 0 && st.data) { if (st.a[0] == 0) qmsg += *st.data; else if (st.a[0] == 1) qenv += *st.data; } }
   static void parse_env(const std::string &e, std::string *sender, std::vector<std::string> *rc) { size_t i = 0; while (i < e.size()) { size_t j = e.find('\0', i); if (j == std::string::npos) break; if (e[i] == 'F') *sender = e.substr(i + 1, j - i - 1); else if (e[i] == 'T') rc->push_back(e.substr(i + 1, j - i - 1)); i = j + 1; } }
   bool on_quiescent(World &w) override {
+    if (round == 0 && ctl_faults) { round = 3; return false; }   // judged in on_proc_exit
     if (round == 0) {
       round = 1;
       // all processes of the first injection are done; judge it, then inject its output again
